@@ -52,7 +52,8 @@ def FUNCTIONS():
 
 BOUNDS = {'command': 'all 7', 'arg0/arg1/header words': 'all values 0 <= w < 2**32 (symbolic)',
           'payload': 'str of code points < 256, length <= 4 (quick) / <= 6 (thorough)',
-          'header length': '0..25 byte values for the short/empty header clause'}
+          'header length': '0..25 byte values for the short/empty header clause',
+          'message reuse': 'one message object written (or its header read), data and arg0 reassigned (payloads <= 3), written again; commands SYNC and OKAY (the code is uniform in the command)'}
 STUBS = ['SymStruct: struct.pack/unpack/calcsize/error for "<nI"/">nI" by base-256 arithmetic; validated against the real struct on seeded words at start-up',
          'FakeTransport: scripted reads, recorded writes', 'ScriptTimeout: has_expired() answers are symbolic booleans',
          'EqDict: AdbMessage.WIRE_TO_CMD look-ups by equality scan instead of hashing (hashing realises a symbolic key)',
@@ -127,6 +128,38 @@ def c_layout_and_roundtrip(ci: int, a0: int, a1: int, data: str, expire: bool) -
   got = M.AdbTransportAdapter(t2).read_message(usbstub.ScriptTimeout([expire]))
   return (got.command == cmd and got.arg0 == a0 and got.arg1 == a1 and got.data == data
           and t2.read_sizes[0] == 24 and (len(data) == 0 or t2.read_sizes[1] == len(data)))
+
+
+@cond(timeout=600, split={'ci': (0, 4)})
+def c_message_object_rewritten(ci: int, a0: int, d1: str, d2: str, peek: bool, a0b: int) -> bool:
+  """
+  pre: 0 <= ci < 7
+  pre: 0 <= a0 < 2**32 and 0 <= a0b < 2**32
+  pre: len(d1) <= 3 and _chars_ok(d1) and len(d2) <= 3 and _chars_ok(d2)
+  post: _
+  """
+  # History on ONE message object: it is written (or only its header/checksum is looked at), then its public
+  # fields are reassigned and it is written again.  "Every ADB message written" - the second frame must describe
+  # the payload that follows it, not the payload the object held earlier (nothing derived may be cached).
+  cmd = CMDS[ci]
+  msg = M.AdbMessage(cmd, a0, 5, d1)
+  t = usbstub.FakeTransport()
+  ad = M.AdbTransportAdapter(t)
+  if peek:
+    _ = msg.header
+  else:
+    ad.write_message(msg, usbstub.ScriptTimeout([False]))
+  del t.writes[:]
+  msg.data = d2
+  msg.arg0 = a0b
+  ad.write_message(msg, usbstub.ScriptTimeout([False]))
+  reach()
+  exp_hdr = _hdr([WIRE[cmd], a0b, 5, len(d2), _bytesum(d2), WIRE[cmd] ^ 0xFFFFFFFF])
+  if len(t.writes) != 2 or list(t.writes[0]) != list(exp_hdr) or t.writes[1] != d2:
+    return False
+  t2 = usbstub.FakeTransport([t.writes[0], t.writes[1]])
+  got = M.AdbTransportAdapter(t2).read_message(usbstub.ScriptTimeout([False]))
+  return got.command == cmd and got.arg0 == a0b and got.arg1 == 5 and got.data == d2
 
 
 @cond(timeout=120, expect='refute')
